@@ -52,8 +52,11 @@ theorem unwrap_never_panics_iff : UnwrapNeverPanics ↔ unwrapChecksLength = tru
   · intro h A
     exact (Decrypt.Lemmas.unwrapWith_never_panics_iff unwrapChecksLength A).mpr h
 
-/-- REFUTED on the current tree (D2).  Witness: an empty `profiles.profile_key` (`ct = []`) under any store key. -/
-theorem unwrap_never_panics_refuted : ¬ UnwrapNeverPanics :=
+/-- REFUTED for the pinned tree's variant without the length check (D2).  Witness: an empty
+    `profiles.profile_key` (`ct = []`) under any store key.  (Whether the current source checks the length is
+    read from the source: `unwrapChecksLength`.) -/
+theorem unwrap_never_panics_refuted_unchecked :
+    ¬ (∀ (A : Aead) (storeKey : Option Bytes) (ct : Bytes), unwrapDataWith false A storeKey ct ≠ .panic) :=
   fun h => absurd (Decrypt.Lemmas.unwrap_unchecked_panics toyAead [] [] (by decide)) (h toyAead (some []) [])
 
 /-- the part that holds: from 12 bytes on (and for the unprotected store) `unwrap_data` never panics -/
@@ -169,11 +172,11 @@ def wStore : List ProfSpec :=
   [⟨"p", [⟨2, [99], [110], [1], [⟨false, [116], [120]⟩]⟩, ⟨1, [99], [110], [2], []⟩, ⟨2, [100], [110], [3], [⟨false, [116], [121]⟩]⟩]⟩,
    ⟨"q", [⟨2, [99], [110], [4], []⟩]⟩]
 
-/-- D2 at the logical level, current tree: a `profile_key` truncated below the nonce length makes every read (and the open)
+/-- D2 at the logical level, for the variant without the length check (the pinned tree): a `profile_key` truncated below the nonce length makes every read (and the open)
     panic.  Replayed on the real code by the campaign (`profile_key:trunc_lt_nonce:*:panic`). -/
 theorem profile_key_truncation_panics_witness :
-    read (tamperProfile (store 1 wStore) 0 (.garbage 11)) 1 "p" (.count none none) = .panic ∧
-    openWith unwrapChecksLength (tamperProfile (store 1 wStore) 0 (.garbage 0)) (some .raw) (.key 1) "p" = .panic := by
+    readWith false (tamperProfile (store 1 wStore) 0 (.garbage 11)) 1 "p" (.count none none) = .panic ∧
+    openWith false (tamperProfile (store 1 wStore) 0 (.garbage 0)) (some .raw) (.key 1) "p" = .panic := by
   constructor <;> rfl
 
 /-- value key not bound to the kind: the value of the Kms twin, put into the Item row, is returned as the Item's value
